@@ -491,7 +491,7 @@ func emitData(out *sx.Out, i int, typ auparse.AuditMessageType, raw string, want
 
 var frags = []string{"a=b", "key=\"x y\"", "msg='", "'", "\"", " ", "=", "arch=c000003e", "syscall=59", "success=yes", "exit=-13", "exit=x", "saddr=0200", "saddr=02001F907F000001", "saddr=0A00", "saddr=01002F746D70",
 	"saddr=ZZ", "argc=3", "argc=4294967295", "argc=-1", "a0=6C73", "a1=\"x\"", "proctitle=6C73002D6C", "proctitle=6C7", "cmd=6C73", "data=6C73", "subj=a:b:c:d:e:f", "obj=u:r:t", "key=6B31016B32", "key=\"k=v\"",
-	"avc:  denied  { read write } for  pid=1", "avc: x {", "} for ", "old auid=1 new auid=2", " (hostname=h, addr=?", ")'", "res=success", "res=0", "sig=31", "sig=x", "exe=\"/bin/ls\"", "exe=2F62696E", "cwd=\"/\"", "name=(null)",
+	"avc:  denied  { read write } for  pid=1", "avc: x {", "} for ", "avc:  denied  for  pid=2", "avc: granted for ", "avc:  denied  { } for  pid=3", "avc:  denied  {} for pid=4", "old auid=1 new auid=2", " (hostname=h, addr=?", ")'", "res=success", "res=0", "sig=31", "sig=x", "exe=\"/bin/ls\"", "exe=2F62696E", "cwd=\"/\"", "name=(null)",
 	"\\'", "\\\"", "k=?", "k=?,", "\t", "\n", "auid=4294967295", "ses=-1", "old-auid=-1", "acct=\"r\"", "acct=726F6F74", "syscall=x", "arch=zz", ":", "audit(", "-", "é"}
 
 var hostileTypeNames = []string{"][", "UNKNOWN]1329[", "]UNKNOWN[1329]", "UNKNOWN[", "UNKNOWN[]", "UNKNOWN[x]", "[", "]", "UNKNOWN[1329", "UNKNOWN[99999999999999999999]",
